@@ -8,4 +8,5 @@ if git -C /repo diff --quiet; then echo "MUTATION DID NOT APPLY"; exit 8; fi
 git -C /repo diff | grep '^[+-]' | grep -v '^+++\|^---'
 cd /verif && ./check $P; rc=$?
 git -C /repo checkout -- .
+./check $P > /dev/null 2>&1   # restore evidence of the clean tree
 echo "rc=$rc"
